@@ -155,14 +155,15 @@ package writecache
 
 // ---- C15: a flush drops the cached copy of an object only after the main storage accepted
 // its bytes (a crash between the two steps leaves two copies, never none).
+// (C17 too: an object that leaves the cache without having reached the main storage is never flushed.)
 //@ ghost pred flushedToStorage() bool
 //@ callrule c15_flush_data_step in (*cache).flushSingle, (*cache).flushBatch
-//@   property C15
+//@   property C15 C17
 //@   callee (writecache.stor).Put, (writecache.stor).PutBatch
 //@   pureeffect
 //@   defines err == nil ==> flushedToStorage()
 //@ callrule c15_cached_copy_dropped_after_flush in (*cache).flushSingle, (*cache).flushBatch
-//@   property C15
+//@   property C15 C17
 //@   callee (*writecache.cache).delete
 //@   pureeffect
 //@   requires [cached_copy_dropped_only_after_storage_accepted_it] flushedToStorage()
